@@ -22,6 +22,7 @@ fn main() {
         "c10" => pv::connrun::run_c10(&args),
         "c04" => pv::byterun::run_c04(&args),
         "c12" => pv::c12::run(&args),
+        "c19" => pv::c19::run(&args),
         "c08" => pv::byterun::run_c08(&args),
         other => {
             eprintln!("unknown runner {other}");
